@@ -73,12 +73,13 @@ class _RegularYearMonthDayCalculator(_YearMonthDayCalculator, abc.ABC):
                 year_to_use += 1
         # End of do not refactor
 
+        # Checked before the calendar is asked about the year: calculators with per-year tables have no entry for it.
+        if (year_to_use < self._min_year) or (year_to_use > self._max_year):
+            raise OverflowError("Date computation would overflow calendar bounds.")
         # Quietly force DOM to nearest sane value.
         day_to_use = year_month_day._day
         max_day = self._get_days_in_month(year_to_use, month_to_use)
         day_to_use = min(day_to_use, max_day)
-        if (year_to_use < self._min_year) or (year_to_use > self._max_year):
-            raise OverflowError("Date computation would overflow calendar bounds.")
         from .._year_month_day import _YearMonthDay
 
         return _YearMonthDay._ctor(year=year_to_use, month=month_to_use, day=day_to_use)
